@@ -136,7 +136,12 @@ class Session:
 
         self.b = e1.Built(_fv(mname), seed)
         self.model = self.b.model
-        self.f, _ = get_lcm_function(self.model, targets="solve" if target == "solve" else "solve_and_simulate", debug_mode=False, jit=jit)
+        self.problems = []
+        self.jit, self.target = jit, target
+        before = _model_snapshot(self.model)
+        self.f, self.tpl = get_lcm_function(self.model, targets="solve" if target == "solve" else "solve_and_simulate", debug_mode=False, jit=jit)
+        if _model_snapshot(self.model) != before:
+            self.problems.append("model object modified by get_lcm_function")
         self.P1 = self.b.params("default", 0.9)
         self.P2 = self.b.params("perturbed", 0.95)
         self.P3 = _p3(self.b)
@@ -148,7 +153,22 @@ class Session:
         i2 = [j % n for j in (1, 2, 4, 6, 7)]
         self.S1 = {s: v[i1] for s, v in init.items()}
         self.S2 = {s: v[i2] for s, v in init.items()}
-        self.problems = []
+
+    def rebuild(self):
+        """Build the function again FROM THE SAME Model object (template and results must not change)."""
+        from lcm.entry_point import get_lcm_function
+
+        before = _model_snapshot(self.model)
+        f2, tpl2 = get_lcm_function(self.model, targets="solve" if self.target == "solve" else "solve_and_simulate", debug_mode=False, jit=self.jit)
+        if _model_snapshot(self.model) != before:
+            self.problems.append("model object modified by the second get_lcm_function")
+
+        def shape(t):
+            return {k: (sorted(v) if isinstance(v, dict) and k != "shocks" else ({a: tuple(np.shape(b)) for a, b in v.items()} if isinstance(v, dict) else None)) for k, v in t.items()}
+
+        if shape(tpl2) != shape(self.tpl):
+            self.problems.append(f"second build from the same model returns another template: {sorted(tpl2)} vs {sorted(self.tpl)}")
+        self.f = f2
 
     def _m(self, mutate_to_p3):
         if self.M is None:
@@ -212,6 +232,15 @@ def _run_seq(case):
             break
         n_seq += 1
         obs.append({"key": f"{case['model']}|jit{int(case['jit'])}|{last[0]}", "digest": last[1], "history": [letters[i] for i in seq]})
+        if len(seq) == 1:
+            # rebuild from the same Model object and repeat the call on the new function object
+            try:
+                s.rebuild()
+                again = s.call(letters[seq[0]])
+                n_calls += 1
+                obs.append({"key": f"{case['model']}|jit{int(case['jit'])}|{again[0]}", "digest": again[1], "history": [letters[seq[0]], "rebuild from the same Model object", letters[seq[0]]]})
+            except Exception as e:
+                viols.append(violation("history", "rebuild", "EXC:" + type(e).__name__, f"second get_lcm_function from the same model: {str(e)[:300]}"))
         if s.problems and not viols:
             viols.append(violation("inputs-unmodified", "call", "MUTATION", f"sequence {[letters[i] for i in seq]}: {s.problems[0]}"))
     return outcome(status="violation" if viols else "ok", violations=viols, states=n_seq, transitions=n_calls, traces=n_seq, digest=digest([o["digest"] for o in obs]), counters={"sequences": n_seq}, obs=obs)
